@@ -193,7 +193,10 @@ class StreamDecoder:
                 # with 0x78, which is not an assigned SSH message number
                 self.cmp_active = True
             if self.cmp_active and self.decomp is not None:
-                payload = self.decomp.decompress(payload)
+                try:
+                    payload = self.decomp.decompress(payload)
+                except zlib.error as e:
+                    raise Problem(f'payload does not decompress: {e}') from None
             self.packets.append({'seq': seq, 'payload': payload, 'padlen': padlen, 'bs': bs, 'hdrlen': hdrlen,
                                  'taglen': taglen, 'wire_payload_len': len(wire_payload), 'frame': frame,
                                  'encrypted': self.state is not None})
@@ -223,8 +226,8 @@ class StreamDecoder:
             mackey = derive(self.hash, K, H, mac_l, self.sid, MACS[self.mac][1])
         self.state = DirState(self.enc, self.mac, key, iv, mackey)
         if self.cmp in ('zlib', 'zlib@openssh.com'):
-            if self.decomp is None:
-                self.decomp = zlib.decompressobj()
+            # RFC 4253 section 7.2 / 6.2: the compression context is re-initialised after each key exchange
+            self.decomp = zlib.decompressobj()
             if self.cmp == 'zlib':
                 self.cmp_active = True
 
